@@ -253,7 +253,36 @@ def r_c03_yearless_tie_at_after(s4, repo, scratch):
             'observed': 'as expected' if not bad else 'with %s expected %s, printed %r' % bad, 'failed': bool(bad)}
 
 
+def r_c02_continuation_at_block_boundary(s4, repo, scratch):
+    """a continuation line that starts on the first byte of a block and is longer than the block still belongs to its message"""
+    bad = None
+    first_inp = None
+    for bsz in (64, 0x10000):
+        inp = os.path.join(scratch, 'c02_boundary_%d.log' % bsz)
+        m1 = b'2020-01-01 00:00:00 first message\n'
+        m2a = b'2020-01-01 00:00:01 second message begins\n'
+        if bsz == 64:
+            m1 = b''
+            m2a = b'2020-01-01 00:00:01 second message '
+        m2b = b'' if bsz == 64 else b'    continuation A '
+        pad = bsz - 1 - len(m1) - len(m2a) - len(m2b)
+        head = m1 + m2a + m2b + b'.' * pad + b'\n'
+        assert len(head) == bsz
+        body = head + b'    continuation B ' + b'x' * (bsz + 40) + b'\n' + b'2020-01-01 00:00:02 third message\n2020-01-01 00:00:03 fourth message\n'
+        open(inp, 'wb').write(body)
+        first_inp = first_inp or inp
+        args = ['--color', 'never'] + (['--blocksz', '64'] if bsz == 64 else []) + [inp]
+        rc, out, err = run_s4(s4, args)
+        if out != body:
+            bad = bad or (inp, len(body), len(out))
+    return {'name': 'C02.continuation_at_block_boundary', 'input': bad[0] if bad else first_inp,
+            'how_made': 'a message whose first part fills block 0 exactly, followed by a continuation line longer than a block; block sizes 64 and 65536',
+            'cmd': '%s --color never [--blocksz 64] <file>' % s4, 'expected': 'output byte-identical to the file',
+            'observed': 'identical' if not bad else 'file %s has %d bytes, printed %d bytes' % bad, 'failed': bool(bad)}
+
+
 RECIPES = {
+    'C02': [r_c02_continuation_at_block_boundary],
     'C04': [r_c04_instants, r_c04_fractions],
     'C10': [r_c03_evtx_window],
     'C01': [r_c01_tie_order, r_c01_chronological],
